@@ -47,7 +47,9 @@ LEVEL_NOTE = "trusted: the solvers' determinism for identical inputs; numpy"
 def _case(draw):
     kind = draw(st.sampled_from(["mechanism", "mechanism", "revolute_spring", "scene", "scene", "point_laws"]))
     spec = {"kind": kind, "nsteps": draw(st.integers(16, 30)), "dt": 10.0 ** draw(gen.f(-2.7, -2.0)),
-            "kfrac": draw(gen.f(0.0, 1.0))}
+            "kfrac": draw(gen.f(0.0, 1.0)),
+            # initial time of the system: 0, or -(k dt) so that the split time is exactly 0.0
+            "t0_mode": draw(st.sampled_from(["zero", "zero", "split_at_zero", "offset"]))}
     if kind == "mechanism":
         spec["mech"] = draw(dynbuild.mechanism(closed_loops=False))
         # Moreau / BackwardEuler states violate g or g_dot and cannot be restarted (see ASSUMPTIONS): sampled rarely
@@ -88,13 +90,16 @@ def build_system(spec):
 
     kind = spec["kind"]
     opts = dynbuild.options()
+    n_, dt_ = spec["nsteps"], spec["dt"]
+    k_ = min(max(int(round(spec["kfrac"] * n_)), 0), n_ - 1)
+    t0 = {"zero": 0.0, "split_at_zero": -(dt_ * k_), "offset": 0.37}[spec.get("t0_mode", "zero")]
     if kind == "mechanism":
-        system, objs = dynbuild.build_mechanism(spec["mech"], opts=opts)
+        system, objs = dynbuild.build_mechanism(spec["mech"], t0=t0, opts=opts)
         return system, {"two_moving": len(spec["mech"]["bodies"]) >= 2, "contact": False}
     if kind == "scene":
-        system, objs = dynbuild.build_scene(spec["scene"])
+        system, objs = dynbuild.build_scene(spec["scene"], t0=t0)
         return system, {"two_moving": False, "contact": True}
-    system = sysbuild.new_system(0.0)
+    system = sysbuild.new_system(t0)
     if kind == "revolute_spring":
         rb = RigidBody(1.0, np.diag([0.1, 0.15, 0.2]), q0=np.array([0.3, 0.1, -0.2, 1.0, 0, 0, 0]), name="rotor")
         js = {"type": "Revolute", "axis": spec["axis"], "angle0": spec["angle0"], "r_OJ0": [0.0, 0.0, 0.0], "psi_J": None}
@@ -270,5 +275,5 @@ def check(spec):
     if max(eq, eu) > tol * sc:
         res.fail("split_run_equals_uninterrupted_run", site, max(eq, eu), feats, f"split step {k} of {n}: |dq|={eq:.3e} |du|={eu:.3e}")
     res.nontrivial = 0 < k < n - 1 and (info["two_moving"] or info["contact"] or "revolute" in info)
-    res.label(f"solver:{solver}", f"kind:{spec['kind']}", "k=0" if k == 0 else "k>0")
+    res.label(f"solver:{solver}", f"kind:{spec['kind']}", "k=0" if k == 0 else "k>0", "t0:" + spec.get("t0_mode", "zero"))
     return res
